@@ -222,6 +222,18 @@ func (g *Gen) next() *Op {
 		dts := []int64{0, int64(5 * time.Second), int64(5 * time.Second), int64(r.cfg.Arb + r.cfg.Compl), int64(time.Second)}
 		return &Op{Kind: "endblock", Dt: dts[rng.Intn(len(dts))]}
 	}
+	// query steps (C17): ~4 % of the ops overall, more likely while requests are pending
+	// or answered, because that is when the request / response listings are not empty
+	pq := 0.025
+	if len(s.ActID) > 0 || len(s.Resps) > 0 {
+		pq = 0.08
+	}
+	if len(s.Resps) >= 2 || len(s.ActID) >= 3 {
+		pq = 0.2
+	}
+	if g.chance(pq) {
+		return &Op{Kind: "query"}
+	}
 	x := rng.Intn(100)
 	switch {
 	case x < 6 || len(s.Defs) == 0:
